@@ -44,6 +44,46 @@ theorem C18_flush_mem (q : List UserEv) (e : UserEv) :
     rw [← h] at this
     exact (List.mem_filter.mp this).1
 
+/-- **Multiplicity.** Events are never merged, however alike: an event (name, time, flag,
+payload) is emitted by the flush exactly as many times as it was received in the quantum if it
+carries the highest time received for its name, and not at all otherwise.  In particular two
+events equal in every field are both delivered. -/
+theorem C18_flush_count (q : List UserEv) (e : UserEv) :
+    (runQuantum [] q).2.count e = if e.lt = maxLt q e.name then q.count e else 0 := by
+  have hx := C18_flush_exact q e.name
+  have h1 : (runQuantum [] q).2.count e = ((runQuantum [] q).2.filter (·.name == e.name)).count e := by
+    rw [List.count_filter]; simp
+  rw [h1, hx]
+  unfold newest
+  by_cases h : e.lt = maxLt q e.name
+  · rw [List.count_filter (by simp [h])]; simp [h]
+  · simp only [h, ↓reduceIte]
+    rw [List.count_eq_zero]
+    intro hm
+    have := (List.mem_filter.mp hm).2
+    simp at this
+    exact h this
+
+-- two events equal in every field, and the nil / empty payload pair (ids 2^64, 2^64+1): all are kept
+example : (runQuantum [] [⟨"a", 2, true, 7⟩, ⟨"a", 2, true, 7⟩, ⟨"a", 2, true, 18446744073709551616⟩,
+    ⟨"a", 2, true, 18446744073709551617⟩, ⟨"a", 1, true, 7⟩]).2
+    = [⟨"a", 2, true, 7⟩, ⟨"a", 2, true, 7⟩, ⟨"a", 2, true, 18446744073709551616⟩, ⟨"a", 2, true, 18446744073709551617⟩] := by
+  decide
+
+/-- The broken shape — skip an event of the same age when the entry already holds one with an equal
+payload — is a different function: it loses the second of two equal events. -/
+def coalesceSkippingEqualPayload (c : UC) (e : UserEv) : UC :=
+  match alookup c e.name with
+  | none => ainsert c e.name (e.lt, [e])
+  | some (lt, evs) =>
+    if lt < e.lt then ainsert c e.name (e.lt, [e])
+    else if lt = e.lt then (if evs.any (·.id == e.id) then c else ainsert c e.name (lt, evs ++ [e]))
+    else c
+
+theorem C18_skipping_equal_payloads_counterexample :
+    (flush ([⟨"a", 2, true, 7⟩, ⟨"a", 2, true, 7⟩].foldl coalesceSkippingEqualPayload [])).2 = [⟨"a", 2, true, 7⟩] ∧
+    (runQuantum [] [⟨"a", 2, true, 7⟩, ⟨"a", 2, true, 7⟩]).2 = [⟨"a", 2, true, 7⟩, ⟨"a", 2, true, 7⟩] := by decide
+
 /-- **Flush resets**: the next quantum starts from the empty coalescer. -/
 theorem C18_flush_resets (c : UC) : (flush c).1 = [] := rfl
 
